@@ -6,9 +6,9 @@ package main
 
 import (
 	"fmt"
+	"net/netip"
 	"os"
 	"runtime/debug"
-	"net/netip"
 	"sort"
 	"strings"
 
@@ -458,6 +458,41 @@ func (e *env) checkWire(table []entry, q query, mode string, ref *refResult, w *
 			tableStr(table), q.Host, qtName(q.QT), mode, cs.Got, strings.Join(whys, "\n  nor as ")), cs)
 }
 
+// wireTable runs every query and upstream mode against one table, in its
+// given and in the reversed order (the wire level adds nothing order-specific
+// beyond part 1).
+func (e *env) wireTable(base []entry) {
+	c := e.c
+	refs := make([]*refResult, len(e.qs))
+	for i, q := range e.qs {
+		refs[i] = resolve(base, q.Host, q.QT)
+	}
+	orders := [][]entry{append([]entry{}, base...)}
+	if len(base) > 1 && base[0] != base[len(base)-1] {
+		rev := make([]entry, len(base))
+		for i, x := range base {
+			rev[len(base)-1-i] = x
+		}
+		orders = append(orders, rev)
+	}
+	for _, table := range orders {
+		cs := caseT{Part: "wire", Table: table}
+		e.g.cur.Store(&cs)
+		w, err := newWire(c.TmpDir, table)
+		e.g.beat.Add(1)
+		if err != nil {
+			c.Violation("wire:server-build-fails", fmt.Sprintf("table %s: %v", tableStr(table), err), cs)
+			continue
+		}
+		c.Count("wire_servers", 1)
+		for qi, q := range e.qs {
+			for _, mode := range modes {
+				e.checkWire(table, q, mode, refs[qi], w)
+			}
+		}
+	}
+}
+
 func runWire(e *env, idx *int) {
 	c := e.c
 	for _, p := range wirePlans(c.Tier) {
@@ -471,36 +506,7 @@ func runWire(e *env, idx *int) {
 				complete = false
 				return false
 			}
-			refs := make([]*refResult, len(e.qs))
-			for i, q := range e.qs {
-				refs[i] = resolve(base, q.Host, q.QT)
-			}
-			// Both orders of the first two entries; the wire level adds nothing
-			// order-specific beyond part 1.
-			orders := [][]entry{append([]entry{}, base...)}
-			if len(base) > 1 && base[0] != base[len(base)-1] {
-				rev := make([]entry, len(base))
-				for i, x := range base {
-					rev[len(base)-1-i] = x
-				}
-				orders = append(orders, rev)
-			}
-			for _, table := range orders {
-				cs := caseT{Part: "wire", Table: table}
-				e.g.cur.Store(&cs)
-				w, err := newWire(c.TmpDir, table)
-				e.g.beat.Add(1)
-				if err != nil {
-					c.Violation("wire:server-build-fails", fmt.Sprintf("table %s: %v", tableStr(table), err), cs)
-					continue
-				}
-				c.Count("wire_servers", 1)
-				for qi, q := range e.qs {
-					for _, mode := range modes {
-						e.checkWire(table, q, mode, refs[qi], w)
-					}
-				}
-			}
+			e.wireTable(base)
 			return true
 		})
 		if !complete {
